@@ -71,7 +71,7 @@ Section Knot.
   Lemma dok_opaque : forall e s, ends_code s = true -> dok true [Opaque e s] = true.
   Proof. intros e s H. cbn [dok render_piece]. rewrite H. reflexivity. Qed.
 
-  Definition P (e : expr) : Prop := tok_ok e = true -> Gd e /\ gchain Gd e.
+  Definition Pdok (e : expr) : Prop := tok_ok e = true -> Gd e /\ gchain Gd e.
 
   Ltac split_ok Hok Hf He Hcc :=
     cbn [tok_ok] in Hok; apply andb_prop in Hok; let Hn := fresh "Hn" in destruct Hok as [Hn Hok];
@@ -92,9 +92,9 @@ Section Knot.
     [ enter Hf; unfold multiline_doc; rewrite ?Hcc, ?andb_false_r; apply dok_opaque; exact He
     | split; [exact HG|cbn [gchain]; exact HG] ].
 
-  Theorem dok_fmtd_all : forall e, P e.
+  Theorem dok_fmtd_all : forall e, Pdok e.
   Proof.
-    induction e using expr_ind'; unfold P.
+    induction e using expr_ind'; unfold Pdok.
     - leaf. - leaf. - leaf. - leaf. - leaf. - leaf. - leaf.
     - (* EList *)
       intro Hok. split_ok Hok Hf He Hcc.
